@@ -1,6 +1,8 @@
 import Acra.Gen.Src.PES
 import Acra.Gen.Src.Chapter11
 import Acra.Model.Ch11
+import Acra.Gen.Src.TimeDataFormat
+import Acra.Model.Ch11TimeFmt
 import Acra.Model.PES
 import Acra.Lemmas.SrcTie
 namespace Acra.Props.C15
@@ -98,5 +100,18 @@ theorem src_PTPTime_to_pinksheet_rtc (s ns : Nat) (hs : s ≤ 4294967295) (hns :
 
 example : Gen.Src.Chapter11.PTPTime.to_pinksheet_rtc 1700000000 999999999 (by decide) (by decide)
     = 111501407360639 := by decide
+
+/-- `TimeDataFormat.double_digits_to_bcd` as written today = the model's `bcd2`, for `0 ≤ val < 2^32` (every caller
+    passes a calendar field).  `int(val / dec)` is a binary64 division; on this range it truncates to the integer
+    quotient (checked by the translator from the declared range, which is a hypothesis of the generated definition). -/
+theorem src_double_digits_to_bcd (v : Nat) (h : v ≤ 4294967295) :
+    Gen.Src.TimeDataFormat.double_digits_to_bcd v ⟨by omega, by omega⟩
+      = (Model.Ch11Pay.TimeFmt.bcd2 v : Int) := by
+  unfold Gen.Src.TimeDataFormat.double_digits_to_bcd Model.Ch11Pay.TimeFmt.bcd2
+  simp only [List.foldl_cons, List.foldl_nil, floordiv_natCast_lit, pymod_natCast_lit, shl_natCast, toNat_lit,
+    Nat.shiftLeft_eq]
+  omega
+
+example : Gen.Src.TimeDataFormat.double_digits_to_bcd 59 (by decide) = 0x59 := by decide
 
 end Acra.Props.C15
